@@ -19,6 +19,7 @@ import (
 	"go/parser"
 	"go/token"
 	"math"
+	"math/big"
 	"os"
 	"path/filepath"
 	"sort"
@@ -451,9 +452,29 @@ func evalInt(fi *fileInfo, e ast.Expr) (int64, bool) {
 		}
 	case *ast.ParenExpr:
 		return evalInt(fi, t.X)
+	case *ast.BinaryExpr:
+		// exact integer constant arithmetic (math/big), rejected when the result leaves int64
+		l, ok1 := evalInt(fi, t.X)
+		r, ok2 := evalInt(fi, t.Y)
+		if ok1 && ok2 {
+			a, b, z := big.NewInt(l), big.NewInt(r), new(big.Int)
+			switch t.Op {
+			case token.ADD:
+				z.Add(a, b)
+			case token.SUB:
+				z.Sub(a, b)
+			case token.MUL:
+				z.Mul(a, b)
+			default:
+				return 0, false
+			}
+			if z.IsInt64() {
+				return z.Int64(), true
+			}
+		}
 	case *ast.UnaryExpr:
 		if t.Op == token.SUB {
-			if n, ok := evalInt(fi, t.X); ok {
+			if n, ok := evalInt(fi, t.X); ok && n != math.MinInt64 {
 				return -n, true
 			}
 		}
